@@ -277,9 +277,10 @@ func (g agg) String() string {
 }
 
 // classify names the structural predicate of a conservation failure: every
-// expected identity that is missing from the result is compared with the
-// nearest identity of the result that is not itself an exact match; the
-// attributes in which the two differ are what the merge lost or altered.
+// expected identity that is missing from the result, or has the wrong sum
+// there, is compared with the nearest other identity of the result that is not
+// an exact match itself; the attributes in which the two differ are what the
+// merge lost or altered.
 func classify(want, got agg) string {
 	var cands []*entry
 	var gk []string
@@ -307,14 +308,18 @@ func classify(want, got agg) string {
 	for _, k := range wk {
 		g, ok := got[k]
 		if ok {
-			if !sameVals(g.vals, want[k].vals) {
-				wrong = true
+			if sameVals(g.vals, want[k].vals) {
+				continue
 			}
-			continue
+			wrong = true
+		} else {
+			missing = true
 		}
-		missing = true
 		var best []string
 		for _, c := range cands {
+			if c == g {
+				continue
+			}
 			d := want[k].id.diff(c.id)
 			if best == nil || len(d) < len(best) {
 				best = d
